@@ -20,7 +20,7 @@ from sim import exprs as X
 from sim import fingerprint as F
 from sim.machine import INTERNAL_ERRORS, Skip, canon_rows, sha
 
-FAM_PROP = {"O6": "C06", "O8": "C08", "O9": "C09", "O10": "C10", "O11": "C11", "O14": "C14", "O16": "C16"}
+FAM_PROP = {"O19": "C19", "O6": "C06", "O8": "C08", "O9": "C09", "O10": "C10", "O11": "C11", "O14": "C14", "O16": "C16"}
 REROOT_OPS = ("alias", "collect", "clone", "transfer", "recompute")
 
 
@@ -224,7 +224,7 @@ class OraclesMixin:
     # after a table was produced
     # ------------------------------------------------------------------------------
     def primary_family(self):
-        for f in ("O8", "O6", "O9", "O16", "O10", "O11", "O14"):
+        for f in ("O8", "O6", "O9", "O16", "O10", "O11", "O14", "O19"):
             if f in self.fam:
                 return f
         return None
@@ -266,11 +266,13 @@ class OraclesMixin:
 
         # ---- data -----------------------------------------------------------------
         digest = None
-        want_data = bool(self.fam & {"O6", "O8", "O9", "O10", "O14", "O16"}) or self.cfg.get("digest_only")
+        want_data = bool(self.fam & {"O6", "O8", "O9", "O10", "O14", "O16", "O19"}) or self.cfg.get("digest_only")
         if want_data:
             digest = self.data_oracle(pt, step, inputs)
         elif "O11" in self.fam:
             digest = sha(lib_names)
+        if "O19" in self.fam:
+            digest = sha((digest, self.sql_oracle(pt, step)))
         if op == "join" and "O6" in self.fam:
             self.join_rows_oracle(pt, step, inputs)
         elif op == "join" and "O16" in self.fam and (inputs[0].m.same_as == inputs[1].id or inputs[1].m.same_as == inputs[0].id or step.get("selfjoin")):
@@ -689,6 +691,60 @@ class OraclesMixin:
                     left_tail="/".join(lm.verbs[-2:]),
                     right_tail="/".join(rm.verbs[-2:]),
                 )
+
+    # ------------------------------------------------------------------------------
+    # O19 every accepted pipeline compiles on every dialect, to the same text every time
+    # ------------------------------------------------------------------------------
+    def sql_oracle(self, pt, step):
+        op = step["op"]
+        out = {}
+        targets = dict(pt.cq)
+        if "sqlite" in pt.real:
+            targets["sqlite"] = pt.real["sqlite"]
+        for rep in sorted(targets):
+            t = targets[rep]
+            r1 = self.call(lambda t=t: t >> pdt.build_query())
+            r2 = self.call(lambda t=t: t >> pdt.build_query())
+            self.stats["queries_built"] += 2
+            self.stats[f"queries:{rep}"] += 1
+            tail = "/".join(pt.m.verbs[-3:])
+            if r1[0] != "ok":
+                cls = r1[1]
+                self.stats[f"build_query_exc:{rep}:{cls}"] += 1
+                if cls in ("NotSupportedError", "SubqueryError"):
+                    out[rep] = cls
+                    continue
+                self.violate("C19", "O19.1", f"build_query on the {rep} dialect raised {cls}: {str(r1[2])[:200]}", rep=rep, cls=cls, op=op, tail=tail, site=self.exc_site(r1[2]))
+            q = r1[1]
+            if not isinstance(q, str) or not q.lstrip().upper().startswith(("SELECT", "WITH")):
+                self.violate("C19", "O19.1", f"build_query on {rep} returned {str(q)[:80]!r}: not one SELECT statement", rep=rep, op=op, kind="not_select")
+            if ";" in self.strip_sql_literals(q):
+                self.violate("C19", "O19.1", f"build_query on {rep} returned more than one statement", rep=rep, op=op, kind="semicolon")
+            if r2[0] != "ok" or r2[1] != q:
+                self.violate("C19", "O19.2", f"two build_query calls on one table return different text on {rep}", rep=rep, op=op, tail=tail)
+            key = (rep, "q19")
+            if key in pt.first_digest and pt.first_digest[key] != sha(q):
+                self.violate("C19", "O19.2", f"build_query text of an unchanged table changed on {rep}", rep=rep, op=op, tail=tail)
+            pt.first_digest[key] = sha(q)
+            out[rep] = sha(q)
+        return out
+
+    @staticmethod
+    def strip_sql_literals(q: str) -> str:
+        import re
+
+        return re.sub(r"'(?:[^']|'')*'", "''", q)
+
+    @staticmethod
+    def exc_site(exc) -> str:
+        """innermost frame inside the library (file:function) - a stable name for the call site"""
+        import traceback
+
+        site = "?"
+        for fr in traceback.extract_tb(exc.__traceback__):
+            if "pydiverse/transform" in fr.filename:
+                site = f"{fr.filename.rsplit('/', 1)[-1]}:{fr.name}"
+        return site
 
     # ------------------------------------------------------------------------------
     # O16 re-rooting
